@@ -114,9 +114,6 @@ class TcpConnection():
             self.tracking_events_count += TRACKING_SOCKET_EVENTS_TIMEOUT
 
             for key, mask in self.events:
-                if key.data is not None:
-                    self.data_stream += key.data
-
                 if mask & selectors.EVENT_WRITE:
                     tcp_connection.debug(f"Selector notified EVENT_WRITE")
                     self.write()
@@ -128,6 +125,18 @@ class TcpConnection():
 
     def _set_selector_events_mask(self, mode: Literal["r", "w", "rw"], msg: Any = None) -> None:
         self.lock.acquire()
+
+        #: Outbound bytes are queued in data_stream, not attached to the 
+        #: selector key: attached data was picked up again on every event 
+        #: loop pass of a partial write (duplicating it) and was discarded 
+        #: by any later change of the mask (losing it).
+        if msg:
+            self.data_stream += msg
+
+        if mode == "r" and (self.data_stream or self._send_buffer):
+            #: There are bytes still to be written: keep the write interest.
+            mode = "rw"
+
         if mode == "r":
             tcp_connection.debug(f"[Socket-{self.sock_id}] Updating "\
                                  f"selector events mask [READ]")
@@ -142,7 +151,7 @@ class TcpConnection():
                                  f"selector events mask [WRITE]")
 
             self.events_mask = selectors.EVENT_WRITE
-            self.selector.modify(self.sock, self.events_mask, data=msg)
+            self.selector.modify(self.sock, self.events_mask)
             self.write_mode_on.set()
             self.read_mode_on.clear()
 
@@ -152,7 +161,7 @@ class TcpConnection():
                                  f"selector events mask [READ/WRITE]")
 
             self.events_mask = selectors.EVENT_READ | selectors.EVENT_WRITE
-            self.selector.modify(self.sock, self.events_mask, data=msg)
+            self.selector.modify(self.sock, self.events_mask)
             self.write_mode_on.set()
             self.read_mode_on.set()
 
@@ -183,19 +192,22 @@ class TcpConnection():
 
 
     def write(self) -> None:
-        if not self.send_data_stream_queued and self.data_stream:
-            self._send_buffer += self.data_stream
-            self.data_stream = b""
-            self.send_data_stream_queued = True
-            tcp_connection.debug(f"[Socket-{self.sock_id}] Stream data has "\
-                                 f"been queued into _send_buffer: "\
-                                 f"{self._send_buffer.hex()}")
+        if not self.send_data_stream_queued:
+            self.lock.acquire()
+            if self.data_stream:
+                self._send_buffer += self.data_stream
+                self.data_stream = b""
+                self.send_data_stream_queued = True
+                tcp_connection.debug(f"[Socket-{self.sock_id}] Stream data "\
+                                     f"has been queued into _send_buffer: "\
+                                     f"{self._send_buffer.hex()}")
+            self.lock.release()
 
         self._write()
 
         if self.send_data_stream_queued and not self._send_buffer:
-            self._set_selector_events_mask("r")
             self.send_data_stream_queued = False
+            self._set_selector_events_mask("r")
             tcp_connection.debug(f"[Socket-{self.sock_id}] There is no "\
                                  f"data to be sent for a while")
 
